@@ -151,7 +151,10 @@ func baseImage(ps int) (*bt.Built, error) {
 	for i := 0; i < 6; i++ {
 		w.Rows = append(w.Rows, bt.Row{Fields: fmtb.Values(val.Text(fmt.Sprintf("k%d", i)), val.Int(int64(i)))})
 	}
-	img.Tables = []bt.Table{t, w}
+	// a table and an index that never got a row: their root pages are empty
+	// (on a 65536-byte page the cell content then starts at 65536, stored as 0)
+	e := bt.Table{Name: "e", NCols: 2, Indexes: []bt.Index{{Name: "ei", Cols: []int{1}}}}
+	img.Tables = []bt.Table{t, w, e}
 	return bt.Build(img)
 }
 
@@ -174,6 +177,8 @@ func readAll(d *sdb.Database) (rows []string, err error) {
 		rows = append(rows, "rowid4:"+fmt.Sprint([]interface{}(r)))
 	}
 	note(hl.PKSelect("w", sqlittle.Key{"k2"}, func(r sqlittle.Row) { rows = append(rows, "pk:"+fmt.Sprint([]interface{}(r))) }, "c1"))
+	note(hl.Select("e", func(r sqlittle.Row) { rows = append(rows, "e:"+fmt.Sprint([]interface{}(r))) }, "c0", "c1"))
+	note(hl.IndexedSelect("e", "ei", func(r sqlittle.Row) { rows = append(rows, "ei:"+fmt.Sprint([]interface{}(r))) }, "c0", "c1"))
 	// low level with explicit lock: several reads inside ONE transaction (a
 	// header that is refused must stay refused for all of them)
 	if e := d.RLock(); e == nil {
@@ -505,6 +510,8 @@ func checkReal(r *vt.Run, t vt.TB, s realSpec) {
 		pre = append(pre, oracle.Stmt{SQL: "PRAGMA encoding='UTF-16be'"})
 	}
 	stmts := append(pre, []oracle.Stmt{
+		{SQL: "CREATE TABLE empty1 (a, b)"},
+		{SQL: "CREATE INDEX empty1b ON empty1 (b)"},
 		{SQL: "CREATE TABLE t (a, b)"},
 		{SQL: "INSERT INTO t VALUES (1, 'one'), (2, 'two'), (3, 'three')"},
 	}...)
@@ -521,6 +528,13 @@ func checkReal(r *vt.Run, t vt.TB, s realSpec) {
 	r.Case(s, wantReject || s.Kind == "switch-to-wal", "real:"+s.Kind)
 	read := func(db *sqlittle.DB) (rows []string, err error) {
 		err = db.Select("t", func(row sqlittle.Row) { rows = append(rows, fmt.Sprint([]interface{}(row))) }, "a", "b")
+		// (tables and indexes without any row: empty root pages)
+		if e := db.Select("empty1", func(row sqlittle.Row) { rows = append(rows, "row in the empty table") }, "a", "b"); err == nil {
+			err = e
+		}
+		if e := db.IndexedSelect("empty1", "empty1b", func(row sqlittle.Row) { rows = append(rows, "row in the empty index") }, "a", "b"); err == nil {
+			err = e
+		}
 		return
 	}
 	db, err := sqlittle.Open(path)
